@@ -22,6 +22,7 @@ func main() {
 	regPkg := flag.String("regpkg", "", "package name of the registry file")
 	regFile := flag.String("regfile", "", "path of the registry file")
 	dynImport := flag.String("dyn", "", "import path of the dyn bridge")
+	gen := flag.String("gen", "v2", "module generation the registry is for (v2 | v1)")
 	flag.Parse()
 	var s *schema.Schema
 	switch *kind {
@@ -38,7 +39,7 @@ func main() {
 	must(os.WriteFile(filepath.Join(*out, "manifest.json"), s.ManifestV2(), 0o644))
 	must(os.WriteFile(filepath.Join(*out, "spec.json"), s.SpecV1(), 0o644))
 	if *regFile != "" {
-		must(os.WriteFile(*regFile, []byte(s.RegistrySource(*regPkg, *dynImport)), 0o644))
+		must(os.WriteFile(*regFile, []byte(s.RegistrySource(*regPkg, *dynImport, *gen)), 0o644))
 	}
 	fmt.Printf("corpus %s: %d types, %d resources\n", *kind, len(s.Types), len(s.Resources))
 }
